@@ -593,6 +593,15 @@ class C27(Check):
                     k += 1
                 gs.append([{"case": "f%d" % k, "op": "fromuint" if t[0] == "u" else "fromint", "t": t, "val": enc, "w": 0, "b": []}])
                 k += 1
+        # every 16-bit pattern read back (as the top bytes of constants of 2-4 bytes, into every unsigned type): nothing
+        # about the byte VALUES may matter to where the most significant byte is found
+        for v in range(1 << 16):
+            if tier == "quick" and v % 3 and not (0x80 <= (v >> 8) <= 0xBF and (v & 255) >= 0xC2):
+                continue
+            pad = [[], [0x11], [0, 0]][v % 3]
+            gs.append([{"case": "r%d" % k, "op": "readuint", "t": ["u8", "u16", "u32", "u64"][(v >> 4) % 4], "val": [], "w": 0,
+                        "b": pad + [v & 255, v >> 8]}])
+            k += 1
         for i in range(400 if tier == "quick" else 5000):
             w = rng.choice([1, 2, 3, 4, 7, 8, 9, 12, 16])
             b = edge_bytes(rng, w)
